@@ -30,6 +30,7 @@ int g_last_tag = -1;
 int g_tags[16];
 void tag_illegal_cb(const char *msg, void *data) {
     g_mon.illegal_count++;
+    { int k = g_mon.cur_task + 1; if (k >= 0 && k < 40) g_mon.illegal_by_task[k]++; }
     g_mon.last_illegal = msg ? msg : "";
     g_last_tag = data ? *(int *)data : -1;
 }
@@ -139,6 +140,7 @@ static void ctx_execute(const Plan &p, const ExecOpts &, Result &r) {
         if (it != golden.end()) return it->second;
         ProbeRun pr; ProbeEnv e{gold, &fx, &pr, false};
         tab[pi].fn(e);
+        r.expected_illegal += misuse_callbacks(pr);
         return golden[pi] = pr;
     };
     auto check_vs_gold = [&](int pi, const ProbeRun &got, const std::string &vclass, const std::string &what) {
@@ -272,7 +274,8 @@ static void ctx_execute(const Plan &p, const ExecOpts &, Result &r) {
             ProbeRun pr; ProbeEnv e{s.ctx, &fx, &pr, false};
             int64_t i0 = g_mon.illegal_count;
             tab[pi].fn(e);
-            if (g_mon.illegal_count != i0) r.violate("C20", "history_divergence", std::string("probe=") + tab[pi].name, "illegal callback on a proper context: " + g_mon.last_illegal);
+            r.expected_illegal += misuse_callbacks(pr);
+            if (g_mon.illegal_count - i0 != misuse_callbacks(pr)) r.violate("C20", "history_divergence", std::string("probe=") + tab[pi].name, "illegal callback on a proper context: " + g_mon.last_illegal);
             r.ev("probe " + std::to_string(si) + " " + tab[pi].name + " " + run_digest(pr));
             check_vs_gold(pi, pr, "history_divergence", "output differs from the golden context (slot " + std::to_string(si) + (s.prealloc ? " prealloc" : " malloc") + (s.comp ? " comp" : "") + ")");
         }
@@ -297,6 +300,7 @@ static void ctx_execute(const Plan &p, const ExecOpts &, Result &r) {
             for (size_t i = 0; i < pr.calls.size() && r.ok; i++) {
                 const CallRec &c = pr.calls[i];
                 r.cmp();
+                if (c.misuse) { r.expected_illegal += c.ill; if (i >= gr.calls.size() || c.ill != gr.calls[i].ill) r.violate("C20", "static_divergence", c.api, "deliberate misuse is reported differently on the static context"); continue; }
                 if (c.ill == 0) {
                     if (i >= gr.calls.size() || c.ret != gr.calls[i].ret || c.out != gr.calls[i].out)
                         r.violate("C20", "static_divergence", c.api, std::string("static context: ") + c.api + " returned a different result than the full context without reporting illegal use (probe " + tab[pi].name + ")");
@@ -376,7 +380,8 @@ static void ctx_execute(const Plan &p, const ExecOpts &, Result &r) {
                     r.violate("C20", "race", rc.where.substr(0, rc.where.find('+')), std::string("store to ") + rc.where + " by task " + std::to_string(rc.task) + " (probe " + tab[pi].name + ", call #" + std::to_string(rc.call) + " " + api + ", edge " + std::to_string(rc.edge) + ") while other tasks may read it");
                 }
                 if (snap_bad) r.violate("C20", "shared_state_modified", "snapshot", "bytes of the shared context / fixtures / library image changed during a const-API phase");
-                if (g_mon.illegal_count != i0) r.violate("C20", "concurrent_divergence", "illegal_callback", "illegal callback during concurrent phase: " + g_mon.last_illegal);
+                { int64_t want = 0; for (auto &pr : runs) want += misuse_callbacks(pr); r.expected_illegal += want;
+                  if (g_mon.illegal_count - i0 != want) r.violate("C20", "concurrent_divergence", "illegal_callback", "unexpected illegal callback count during the concurrent phase (" + std::to_string(g_mon.illegal_count - i0) + " vs " + std::to_string(want) + "): " + g_mon.last_illegal); }
                 for (size_t k = 0; k < tasks.size() && r.ok; k++) {
                     check_vs_gold(prog[tasks[k]], runs[k], pass ? "concurrent_divergence" : "history_divergence",
                                   pass ? "output under the seeded schedule differs from the golden bytes" : "output on the shared context differs from the golden bytes");
